@@ -170,7 +170,7 @@ class Renderer:
         body = self.segments(q[2], singular)
         if head == "":
             body = body.lstrip(" \t\n\r")
-            if body.startswith(".") and not body.startswith(("..", "._")) and self.r.random() < 0.5:
+            if body.startswith(".") and not body.startswith(("..", "._")) and not body[1:2].isdecimal() and self.r.random() < 0.5:
                 body = body[1:]  # `thing` is the same as `.thing` and `$.thing`
         return head + body
 
